@@ -791,10 +791,19 @@ func implC08(h caseHead, raw []byte) (res map[string]any) {
 		}
 	}()
 	var dh struct {
-		Debug bool `json:"debug"`
+		Debug bool   `json:"debug"`
+		Via   string `json:"via"`
 	}
 	json.Unmarshal(raw, &dh)
-	_, err := pkg.CompileProfile(h.Profile, dh.Debug, nil)
+	var err error
+	switch dh.Via {
+	case "validate":
+		_, err = pkg.Validate(h.Profile, h.Data, dh.Debug, nil)
+	case "validate-cfg":
+		_, err = pkg.ValidateWithConfiguration(h.Profile, h.Data, dh.Debug, nil, fixedClock{}, rcOf(h))
+	default:
+		_, err = pkg.CompileProfile(h.Profile, dh.Debug, nil)
+	}
 	if err == nil {
 		res["outcome"] = "accepted"
 		res["unsafeRejected"] = false
